@@ -276,7 +276,7 @@ def shape_plan(c):
     role, raw, ops = c.args[0], unhx(c.args[1]), c.args[2:]
     buffering, pending, packets = False, [], []
     for op in ops:
-        if op.startswith("draws="):
+        if op.startswith("draws=") or op.startswith("maxw="):
             continue
         fr = []
         if op == "S":
@@ -343,7 +343,7 @@ def check_shape(c, ir, check_wire=True, check_sizes=True):
     ops = parse_ops_result(ir)
     if ops is None:
         return "unreadable result %s" % ir[:80], draws
-    real_ops = [op for op in c.args[2:] if not op.startswith("draws=")]
+    real_ops = [op for op in c.args[2:] if not op.startswith("draws=") and not op.startswith("maxw=")]
     if len(ops) != len(real_ops):
         return "result has %d op records for %d ops" % (len(ops), len(real_ops)), draws
     k = 0
